@@ -124,7 +124,7 @@ def main(tier):
     chk.cov['alphabets'] = per
     chk.cov['rule'] = ('validator-driven DFS enumerates every valid function body with <= N instructions over each alphabet (full: 33 symbols, '
                        'ctl: 13 symbols, typed-*: carried value of type i64/f32/f64 with mixed-type params and locals in several declaration '
-                       'groupings; ctx:*: every valid filling of <= N instructions over a 21-symbol alphabet of six fixed contexts - dead code inside a block followed by live code, dead code in '
+                       'groupings; ctx:*: every valid filling of <= N instructions over a 23-symbol alphabet (incl. br_table with an empty label vector) of six fixed contexts - dead code inside a block followed by live code, dead code in '
                        'either arm of a live if, above extra operands inside/below a value-carrying block, inside a loop nested in a block); each body runs on every input vector; return value, trap and ordered host-call trace are compared with the '
                        'reference; a body is non-trivial iff its reference outcome is not constant over the inputs')
     chk.assumptions += ['bodies longer than the completed N are not covered', 'reference = own interpreter validated against the spec test-suite']
